@@ -102,6 +102,9 @@ func (fx *FuncCtx) invoke(st *State, cc *ssa.CallCommon, recv Val, args []Val, r
 		st.assume(t)
 	}
 	genv = fx.localsEnv(st, st.heap, map[string]string{})
+	if rt != nil && res.Tup == nil {
+		genv.vars["result$"] = res
+	}
 	fx.runGhost(st, "after "+site, genv, pos)
 	return res
 }
